@@ -368,6 +368,8 @@ bool BS_GEQ[BS_NG][BS_NG];
 size_t BS_GEQ_W[BS_NG][BS_NG];
 bool BS_SORTED[BS_NG];
 size_t BS_SORTED_W[BS_NG];
+struct bs_pos_t { size_t p[BS_CAP]; } BS_POSS;
+size_t bs_unique_end;
 #include "%(root)s/rt/spec.h"
 // ---- the ghost heap <-> real shared pointers
 static std::map<size_t, std::shared_ptr<const std::vector<T>>> heap_real;
